@@ -75,6 +75,13 @@ fn relations(tier: Tier) -> Vec<Rel> {
     macro_rules! sw_glv {
         ($cfg:ty, $name:expr, $whole:expr, $weight:expr, $hint:expr) => {{
             let c = Ctx::new($name, sw_pts::<$cfg>(), $whole);
+            if !$whole {
+                // projective multiplication is overridden by an endomorphism method: whole-curve points still have to be
+                // multiplied correctly by the affine entry points (shipped::affine_whole)
+                let cc = c.clone();
+                let n = (tier.pick(300u32, 300 * 15) * $weight / 4).max(8);
+                out.push(Rel::new(format!("affine-whole/{}", $name), n, 14 * c.n + 72, move |t, o| shipped::affine_whole::<SwProj<$cfg>>(&cc, t, o)).shrink_iters(300));
+            }
             glv_rel::<$cfg>(&mut out, c.clone(), tier, $weight);
             group_rels::<SwProj<$cfg>>(&mut out, c, tier, $weight, $hint);
         }};
@@ -192,7 +199,7 @@ fn main() {
         rule: "Toy curves (9 short-Weierstrass, 6 twisted-Edwards, 4 toy GLV curves): every point of the curve x every k < 2r through mul_bigint (affine/projective input, zero-padded limb slices), *, *=, mul_bits_be with leading false bits, wNAF for every window (fresh table, explicit table, longer table, too-short table => None), and every point x 7 table-size hints x every declared scalar size x all scalars through BatchMulPreprocessing / batch_mul, against the affine chord-and-tangent / Edwards-law oracle of vh_core::curve; toy GLV: every (k, P) of the subgroup. Shipped curves (11 GLV configurations + 13 others): points are identity, +-G, small and random multiples of G and (for paths that are plain double-and-add) points of the whole curve built from an arbitrary x / y; scalars are edge-biased (0, 1, 2, r-1, r-2, (r+-1)/2, r-small, 2^j, 2^j+-1, runs of ones, periodic bit patterns, small, uniform) and, for mul_bigint, raw limb slices >= r, = 2^(64N)-1, shorter than N, longer than N (zero padded and with non-zero high limbs), and integers of arbitrary width (1..N+8 limbs: all ones, edge limbs, 2^(64j)*hi+small, multiples of r plus an edge scalar, uniform) followed by 0..3 zero limbs; the operators are called by value and by reference (P*s, P*&s, P*=s, P*=&s, Affine*s, Affine*&s) and mul_bigint also with the scalar's own BigInt; reference = right-to-left binary method over `+`/`double`. wNAF: windows 2..8 (thorough 12), one case in twelve a wider one (up to wmax+5), toy curves additionally 9..16 (relation toy-wnaf-wide/*), and every window up to 63 with a table that is too short must give None. Fixed-base tables: hints up to 5000 everywhere, 70000 and 2^20 on toy curves, 70000..2^20 with full-size scalars on two shipped curves (batch-wide/*); batches of 0..6 and of 32..40 scalars. GLV: k = k1 + lambda k2 (mod r) with the returned signs, |k1|,|k2| <= sum of absolute basis entries, basis rows in the lattice with determinant r, endomorphism = [lambda]. A case is non-trivial when P is not the identity, k is not 0/1 and k reaches the top bit of r (or exceeds r) or has two adjacent one bits (its signed-digit recoding has a carry); distinct = distinct decoded choice sequences.",
         assumptions: &[
             "the group law (+, double, ==, into_affine) is correct on the inputs used (property C03); the toy oracle does not depend on it",
-            "accelerated paths (GLV, GLV-overridden mul_bigint, wNAF and batch tables on shipped curves) are only fed points of the prime-order subgroup, the group the types are documented to represent",
+            "accelerated paths (GLV, GLV-overridden projective mul_bigint, wNAF and batch tables on shipped curves) are only fed points of the prime-order subgroup, the group the types are documented to represent; the affine entry points (Affine::mul_bigint, Affine * k), which the library itself applies to untrusted points, are also run on points of the whole curve (affine-whole/*)",
             "BatchMulPreprocessing: declared scalar size >= 1 and no scalar wider than the declared size (documented meaning of max_scalar_size)",
             "twisted-Edwards curves with an incomplete addition law: points outside the prime-order subgroup are only judged when the affine oracle meets no exceptional pair on the same addition chain",
         ],
